@@ -42,6 +42,9 @@ func genPCfg(r *rng, kind string, pf pProfile) pcfg {
 	}
 	c.f["BufferSize"] = bs
 	c.f["ShrinkSize"] = r.rangeIn(0, bs-1)
+	if r.chance(3) {
+		c.f["ShrinkSize"] = bs // boundary: rejected by Verify (and must never reach Wrap)
+	}
 	switch r.intn(5) {
 	case 0:
 		c.f["WindowSize"] = r.rangeIn(1, 4)
